@@ -28,9 +28,10 @@ import (
 type identityDictionary struct {
 	mu sync.Mutex
 	// dict is a global cache of identities keyed by
-	// modulename:identityname, where modulename is the full name of the
-	// module to which the identity belongs. If the identity were defined
-	// in a submodule, then the parent module name is used instead.
+	// modulename:identityname, where modulename is the full name
+	// (name@revision) of the module to which the identity belongs. If the
+	// identity were defined in a submodule, then the parent module name is
+	// used instead.
 	dict map[string]resolvedIdentity
 }
 
@@ -53,7 +54,7 @@ func newResolvedIdentity(m *Module, i *Identity) (string, *resolvedIdentity) {
 		Module:   m,
 		Identity: i,
 	}
-	return i.modulePrefixedName(), r
+	return i.dictionaryKey(), r
 }
 
 func appendIfNotIn(ids []*Identity, chk *Identity) []*Identity {
@@ -102,10 +103,9 @@ func (mod *Module) findIdentityBase(baseStr string) (*resolvedIdentity, []error)
 		if owner == nil {
 			owner = mod
 		}
-		keyName := fmt.Sprintf("%s:%s", owner.Name, baseName)
-		base, ok = typeDict.identities.dict[keyName]
+		base, ok = typeDict.identities.dict[fmt.Sprintf("%s:%s", owner.FullName(), baseName)]
 		if !ok {
-			errs = append(errs, fmt.Errorf("%s: can't resolve the local base %s as %s", source, baseStr, keyName))
+			errs = append(errs, fmt.Errorf("%s: can't resolve the local base %s as %s:%s", source, baseStr, owner.Name, baseName))
 		}
 	default:
 		// This is an identity which is defined within another module
@@ -120,7 +120,7 @@ func (mod *Module) findIdentityBase(baseStr string) (*resolvedIdentity, []error)
 		if extowner == nil {
 			extowner = extmod
 		}
-		if id, ok := typeDict.identities.dict[fmt.Sprintf("%s:%s", extowner.Name, baseName)]; ok {
+		if id, ok := typeDict.identities.dict[fmt.Sprintf("%s:%s", extowner.FullName(), baseName)]; ok {
 			base = id
 			break
 		}
